@@ -173,6 +173,7 @@ def monitored_connection_class():
         vf_sndbuf = None           # SO_SNDBUF to set on the new socket
         vf_rcvbuf = None           # SO_RCVBUF likewise
         vf_close_delay = 0         # pause between socket shutdown and stream close
+        vf_min_fd = None           # move the new socket to a descriptor >= this
 
         def __setattr__(self, name, value):
             # observes who replaces the packet reactor (state shared between
@@ -209,6 +210,24 @@ def monitored_connection_class():
             if self.vf_connect_hook is not None:
                 self.vf_connect_hook()
             super(MonitoredConnection, self)._connect()
+            if self.vf_min_fd:
+                # environment shaping: a process with many open files - the
+                # connection's descriptor number is large (select() has a
+                # limit of its own, FD_SETSIZE)
+                import fcntl
+                import socket as _socket
+                old = self.socket
+                hi = fcntl.fcntl(old.fileno(), fcntl.F_DUPFD, self.vf_min_fd)
+                new = _socket.socket(old.family, old.type, old.proto,
+                                     fileno=hi)
+                new.settimeout(old.gettimeout())
+                try:
+                    self.file_object.close()
+                except Exception:
+                    pass
+                old.close()
+                self.socket = new
+                self.file_object = new.makefile('rb', 0)
             if self.vf_rcvbuf:
                 import socket as _socket
                 self.socket.setsockopt(_socket.SOL_SOCKET, _socket.SO_RCVBUF,
